@@ -163,6 +163,38 @@ func runC18(c *core.Ctx) {
 				}
 			}
 			c.Check(bad == "", "C18.lines", key, call.Pos(), "every literal token is a parser atom", bad)
+			// the name a line declares (its first %s) is printed as stored: a name that
+			// went through a function (cleaning, title-casing) does not parse back to itself
+			// (interface and package names are not part of the meta-object that is compared:
+			// the interface name is deliberately made unique against struct names)
+			lead := strings.TrimSpace(format)
+			if i := strings.Index(format, "%s"); i >= 0 && len(call.Args) >= 3 && lead != "%s" && !strings.HasPrefix(lead, "interface") && !strings.HasPrefix(lead, "package") {
+				arg := call.Args[2]
+				transformed := ""
+				switch x := arg.(type) {
+				case *ast.CallExpr:
+					transformed = types.ExprString(x)
+				case *ast.Ident:
+					if obj := info.ObjectOf(x); obj != nil {
+						ast.Inspect(f, func(m ast.Node) bool {
+							as, ok := m.(*ast.AssignStmt)
+							if !ok || len(as.Lhs) != len(as.Rhs) {
+								return true
+							}
+							for k, l := range as.Lhs {
+								if id, ok := l.(*ast.Ident); ok && info.ObjectOf(id) == obj {
+									if ce, ok := as.Rhs[k].(*ast.CallExpr); ok {
+										transformed = types.ExprString(ce)
+									}
+								}
+							}
+							return true
+						})
+					}
+				}
+				c.Check(transformed == "", "C18.lines", key+"/name", call.Pos(), "the declared name is printed as stored",
+					fmt.Sprintf("the name printed by %q is computed by %s: a name that this function changes (a reserved word, a different case) is read back differently, so the struct, field or action name does not survive the round trip", format, transformed))
+			}
 			return true
 		})
 	}
